@@ -81,7 +81,7 @@ cdef class MemoryRecords:
 
         self._pos = slice_end
 
-        magic = buf[MAGIC_OFFSET]
+        magic = buf[pos + MAGIC_OFFSET]
         if magic < 2:
             return LegacyRecordBatch.new(self._buffer, pos, slice_end, magic)
         else:
